@@ -82,6 +82,8 @@ def llvm_as(path, wd):
     return r.rc == 0 and not r.sig, r.err.decode(errors="replace")[-400:]
 
 
+PUB_FN = re.compile(r"^pub (?:extern )?fn (\w+)\(", re.M)
+MAIN_FN = re.compile(r"^fn main\(", re.M)
 DEFINE = re.compile(r"^define ([^@\n]*)@([A-Za-z0-9_.]+)\(", re.M)
 
 
@@ -217,9 +219,14 @@ def evaluate_case(case, wd, check_artifacts=True, stats=None):
                         if not ok:
                             viol.append(("invalid_ir", "module %s (order=%s): %s" % (name, order, msg)))
                         ext = external_definitions(irs[name])
-                        for fn in case.pub_fns.get(name, ()):
+                        declared_pub = set(PUB_FN.findall(case.files[name]))
+                        if MAIN_FN.search(case.files[name]):
+                            declared_pub.add("main")
+                        for fn in sorted(declared_pub | set(case.pub_fns.get(name, ()))):
                             if fn not in ext:
                                 viol.append(("pub_not_external", "%s in %s is not an external definition" % (fn, name)))
+                        for fn in sorted(ext - declared_pub):
+                            viol.append(("private_fn_external", "private function %s of %s is an external definition: other modules can link against it" % (fn, name)))
                 texts.append((e, irs))
             if len(texts) == 2 and texts[0][1] != texts[1][1]:
                 diff = [n for n in order if texts[0][1].get(n) != texts[1][1].get(n)]
